@@ -79,3 +79,338 @@ Proof.
   - destruct (parse_sei_messages f _ rest) as [ms|] eqn:E2; [|discriminate].
     inversion H; subst. cbn. repeat split; try lia. eapply IH. exact E2.
 Qed.
+
+(* ------------------------------------------------------------------------------------------
+   Re-parsing after the cut: removing the bytes of one message from a multi-message SEI leaves a
+   SEI whose messages are exactly the other ones, same types, sizes and payload bytes, in order.
+   ------------------------------------------------------------------------------------------ *)
+Open Scope nat_scope.
+
+(* reading an FF-extended value depends only on the bytes it consumes *)
+Lemma read_ff_prefix fuel : forall l acc used v u r,
+  read_ff fuel l acc used = Some (v, u, r) ->
+  forall X f', u - used <= f' -> read_ff f' (firstn (u - used) l ++ X) acc used = Some (v, u, X).
+Proof.
+  induction fuel as [|f IH]; intros l acc used v u r H X f' Hf; [discriminate|].
+  cbn in H. destruct l as [|b t]; [discriminate|].
+  destruct (b =? 255)%N eqn:Eb.
+  - pose proof (read_ff_used _ _ _ _ _ _ _ H) as [Hlt _].
+    replace (u - used) with (S (u - S used)) in * by lia. cbn [firstn app].
+    destruct f' as [|f'']; [lia|]. cbn [read_ff]. rewrite Eb. apply (IH _ _ _ _ _ _ H). lia.
+  - inversion H; subst. replace (S used - used) with 1 in * by lia. cbn [firstn app].
+    destruct f' as [|f'']; [lia|]. cbn [read_ff]. rewrite Eb. reflexivity.
+Qed.
+
+(* one message as a token: its bytes, and the fact that parsing them gives the same message
+   (shifted to the new offset) whatever follows *)
+Lemma parse_sei_message_token off l m rest :
+  parse_sei_message off l = Some (m, rest) ->
+  exists tok, l = tok ++ rest /\ List.length tok = m_poff m + m_size m - off /\ off + 2 <= m_poff m /\
+    forall off' X, parse_sei_message off' (tok ++ X) =
+                   Some (mkSei off' (m_type m) (off' + (m_poff m - off)) (m_size m), X).
+Proof.
+  unfold parse_sei_message.
+  destruct (read_ff (S (List.length l)) l 0 0) as [[[pt u1] r1]|] eqn:E1; [|discriminate].
+  destruct (read_ff (S (List.length r1)) r1 0 0) as [[[sz u2] r2]|] eqn:E2; [|discriminate].
+  destruct (8 * List.length r2 <? N.to_nat sz) eqn:Ea; [discriminate|].
+  destruct (List.length r2 <? N.to_nat sz) eqn:Eb; [discriminate|].
+  intros H. inversion H; subst m rest. clear H. cbn [m_poff m_size m_type].
+  apply Nat.ltb_ge in Eb.
+  pose proof (read_ff_used _ _ _ _ _ _ _ E1) as (H1a & H1b & H1c).
+  pose proof (read_ff_used _ _ _ _ _ _ _ E2) as (H2a & H2b & H2c).
+  rewrite Nat.sub_0_r in *.
+  set (h1 := firstn u1 l) in *. set (h2 := firstn u2 r1) in *.
+  set (pl := firstn (N.to_nat sz) r2).
+  exists (h1 ++ h2 ++ pl). repeat split.
+  - rewrite H1b at 1. rewrite <- app_assoc. f_equal. rewrite H2b at 1. rewrite <- app_assoc. f_equal.
+    unfold pl. symmetry. apply firstn_skipn.
+  - rewrite !app_length, H1c, H2c. unfold pl. rewrite firstn_length. lia.
+  - lia.
+  - intros off' X.
+    assert (Hr1 : read_ff (S (List.length ((h1 ++ h2 ++ pl) ++ X))) ((h1 ++ h2 ++ pl) ++ X) 0 0 = Some (pt, u1, h2 ++ pl ++ X)).
+    { rewrite <- !app_assoc.
+      pose proof (read_ff_prefix _ _ _ _ _ _ _ E1 (h2 ++ pl ++ X) (S (List.length (h1 ++ h2 ++ pl ++ X)))) as Hp.
+      rewrite Nat.sub_0_r in Hp. fold h1 in Hp. apply Hp. rewrite app_length, H1c. lia. }
+    rewrite Hr1.
+    assert (Hr2 : read_ff (S (List.length (h2 ++ pl ++ X))) (h2 ++ pl ++ X) 0 0 = Some (sz, u2, pl ++ X)).
+    { pose proof (read_ff_prefix _ _ _ _ _ _ _ E2 (pl ++ X) (S (List.length (h2 ++ pl ++ X)))) as Hp.
+      rewrite Nat.sub_0_r in Hp. fold h2 in Hp. apply Hp. rewrite app_length, H2c. lia. }
+    rewrite Hr2.
+    assert (Hpl : List.length pl = N.to_nat sz) by (unfold pl; rewrite firstn_length; lia).
+    replace (8 * List.length (pl ++ X) <? N.to_nat sz) with false by (symmetry; apply Nat.ltb_ge; rewrite app_length; lia).
+    replace (List.length (pl ++ X) <? N.to_nat sz) with false by (symmetry; apply Nat.ltb_ge; rewrite app_length; lia).
+    f_equal. f_equal; [f_equal; lia|].
+    rewrite skipn_app, Hpl, Nat.sub_diag, skipn_all2 by lia. reflexivity.
+Qed.
+
+(* relational view of parse_sei_messages *)
+Inductive tokens : nat -> list N -> list seimsg -> Prop :=
+| tk_last off l m rest : parse_sei_message off l = Some (m, rest) -> List.length rest <= 1 -> tokens off l [m]
+| tk_cons off l m rest ms : parse_sei_message off l = Some (m, rest) -> 1 < List.length rest ->
+                            tokens (m_poff m + m_size m) rest ms -> tokens off l (m :: ms).
+
+Lemma tokens_of_parse fuel : forall off l msgs, parse_sei_messages fuel off l = Some msgs -> tokens off l msgs.
+Proof.
+  induction fuel as [|f IH]; intros off l msgs H; [discriminate|]. cbn [parse_sei_messages] in H.
+  destruct (parse_sei_message off l) as [[m rest]|] eqn:E; [|discriminate].
+  destruct (List.length rest <=? 1) eqn:El.
+  - inversion H; subst. eapply tk_last; eauto. apply Nat.leb_le. exact El.
+  - destruct (parse_sei_messages f _ rest) as [ms|] eqn:E2; [|discriminate]. inversion H; subst.
+    eapply tk_cons; eauto. apply Nat.leb_gt in El. lia.
+Qed.
+
+Lemma parse_of_tokens : forall off l msgs, tokens off l msgs ->
+  forall fuel, List.length l < fuel -> parse_sei_messages fuel off l = Some msgs.
+Proof.
+  induction 1 as [off l m rest Hp Hl|off l m rest ms Hp Hl Ht IH]; intros fuel Hf; (destruct fuel as [|f]; [lia|]); cbn [parse_sei_messages]; rewrite Hp.
+  - replace (List.length rest <=? 1) with true by (symmetry; apply Nat.leb_le; lia). reflexivity.
+  - replace (List.length rest <=? 1) with false by (symmetry; apply Nat.leb_gt; lia).
+    destruct (parse_sei_message_token _ _ _ _ Hp) as (tok & El & Hlen & Hoff & _).
+    rewrite IH; [reflexivity|]. subst l. rewrite app_length in Hf. lia.
+Qed.
+
+Definition shift (d : nat) (m : seimsg) : seimsg := mkSei (m_off m - d) (m_type m) (m_poff m - d) (m_size m).
+
+(* tokens are stable under a change of the start offset *)
+Lemma tokens_shift : forall off l msgs, tokens off l msgs -> forall d, d <= off -> tokens (off - d) l (map (shift d) msgs).
+Proof.
+  induction 1 as [off l m rest Hp Hl|off l m rest ms Hp Hl Ht IH]; intros d Hd.
+  - destruct (parse_sei_message_token _ _ _ _ Hp) as (tok & El & Hlen & Hoff & Hany).
+    pose proof (parse_sei_message_off _ _ _ _ Hp) as [Hmo _].
+    cbn [map]. eapply tk_last; [|exact Hl]. subst l. rewrite (Hany (off - d) rest). f_equal. f_equal.
+    unfold shift. rewrite Hmo. f_equal. lia.
+  - destruct (parse_sei_message_token _ _ _ _ Hp) as (tok & El & Hlen & Hoff & Hany).
+    pose proof (parse_sei_message_off _ _ _ _ Hp) as [Hmo _].
+    cbn [map]. eapply tk_cons with (rest := rest); [| exact Hl |].
+    + subst l. rewrite (Hany (off - d) rest). f_equal. f_equal. unfold shift. rewrite Hmo. f_equal. lia.
+    + cbn [shift m_poff m_size]. replace (m_poff m - d + m_size m) with (m_poff m + m_size m - d) by lia.
+      apply IH. lia.
+Qed.
+
+Lemma tokens_bounds : forall off l msgs, tokens off l msgs ->
+  forall m, In m msgs -> off <= m_off m /\ m_off m < m_poff m /\ m_poff m + m_size m - off <= List.length l.
+Proof.
+  induction 1 as [off l m0 rest Hp Hl|off l m0 rest ms Hp Hl Ht IH]; intros m Hin.
+  - destruct Hin as [<-|[]]. destruct (parse_sei_message_token _ _ _ _ Hp) as (tok & El & Hlen & Hoff & _).
+    pose proof (parse_sei_message_off _ _ _ _ Hp) as [Hmo _]. subst l. rewrite app_length. lia.
+  - destruct (parse_sei_message_token _ _ _ _ Hp) as (tok & El & Hlen & Hoff & _).
+    pose proof (parse_sei_message_off _ _ _ _ Hp) as [Hmo _].
+    destruct Hin as [<-|Hin]; [subst l; rewrite app_length; lia|].
+    destruct (IH m Hin) as (H1 & H2 & H3). subst l. rewrite app_length. lia.
+Qed.
+
+Lemma tokens_nonempty off l msgs : tokens off l msgs -> msgs <> [].
+Proof. destruct 1; discriminate. Qed.
+
+Lemma tokens_length off l msgs : tokens off l msgs -> 2 <= List.length l.
+Proof.
+  destruct 1 as [off l m rest Hp _|off l m rest ms Hp _ _];
+    destruct (parse_sei_message_token _ _ _ _ Hp) as (tok & El & Hlen & Hoff & _); subst l; rewrite app_length; lia.
+Qed.
+
+Lemma tokens_single_inv off l m : tokens off l [m] ->
+  exists rest, parse_sei_message off l = Some (m, rest) /\ List.length rest <= 1.
+Proof.
+  intros H. inversion H as [? ? ? rest Hp Hl|? ? ? rest ms Hp Hl Ht]; subst.
+  - exists rest. split; assumption.
+  - exfalso. apply tokens_nonempty in Ht. congruence.
+Qed.
+
+(* THE CUT: removing the bytes [m_off, m_poff + m_size) of one message of a multi-message SEI
+   leaves exactly the other messages - those before it untouched, those after it shifted down by
+   the removed length - with the same types, sizes and (hence) payload bytes, in the same order *)
+Theorem tokens_cut : forall off l msgs, tokens off l msgs ->
+  forall pre m post, msgs = pre ++ m :: post -> (pre <> [] \/ post <> []) ->
+  tokens off (firstn (m_off m - off) l ++ skipn (m_poff m + m_size m - off) l)
+         (pre ++ map (shift (m_poff m + m_size m - m_off m)) post).
+Proof.
+  induction 1 as [off l m0 rest Hp Hl|off l m0 rest ms Hp Hl Ht IH]; intros pre m post Hmsgs Hne.
+  - (* a single message: impossible *)
+    destruct pre as [|x pre']; cbn in Hmsgs.
+    + inversion Hmsgs; subst. destruct Hne as [H|H]; congruence.
+    + inversion Hmsgs as [[Hx Hrest]]. destruct pre'; discriminate.
+  - destruct (parse_sei_message_token _ _ _ _ Hp) as (tok & El & Hlen & Hoff & Hany).
+    pose proof (parse_sei_message_off _ _ _ _ Hp) as [Hmo _].
+    destruct pre as [|x pre']; cbn [app] in Hmsgs; inversion Hmsgs as [[Hx Hrest]].
+    + (* the first message is cut: what follows, shifted *)
+      subst m0 post. rewrite Hmo, Nat.sub_diag. cbn [firstn app].
+      subst l. rewrite skipn_app, Hlen, Nat.sub_diag, skipn_all2 by lia. cbn [app skipn].
+      replace off with (m_poff m + m_size m - (m_poff m + m_size m - off)) at 1 by lia.
+      apply tokens_shift; [exact Ht|lia].
+    + (* a later message is cut *)
+      subst x ms.
+      assert (Hin : In m (pre' ++ m :: post)) by (apply in_or_app; right; left; reflexivity).
+      destruct (tokens_bounds _ _ _ Ht m Hin) as (Hb1 & Hb2 & Hb3).
+      set (e0 := m_poff m0 + m_size m0) in *.
+      assert (Hcut : firstn (m_off m - off) l ++ skipn (m_poff m + m_size m - off) l =
+                     tok ++ (firstn (m_off m - e0) rest ++ skipn (m_poff m + m_size m - e0) rest)).
+      { subst l. rewrite firstn_app, skipn_app, Hlen.
+        rewrite firstn_all2 by lia. rewrite (skipn_all2 tok) by lia. cbn [app].
+        rewrite <- app_assoc. f_equal. f_equal; f_equal; unfold e0; lia. }
+      rewrite Hcut. cbn [app].
+      destruct (pre' ++ map (shift (m_poff m + m_size m - m_off m)) post) as [|y ys] eqn:Erest.
+      * (* m was the only message after m0: the trailing bytes remain *)
+        apply app_eq_nil in Erest. destruct Erest as [-> Hpost]. apply map_eq_nil in Hpost. subst post.
+        cbn [app] in Ht. destruct (tokens_single_inv _ _ _ Ht) as (rest2 & Hp2 & Hl2).
+        destruct (parse_sei_message_token _ _ _ _ Hp2) as (tok2 & El2 & Hlen2 & Hoff2 & _).
+        pose proof (parse_sei_message_off _ _ _ _ Hp2) as [Hmo2 _].
+        eapply tk_last with (rest := firstn (m_off m - e0) rest ++ skipn (m_poff m + m_size m - e0) rest).
+        -- rewrite (Hany off _). f_equal. f_equal. destruct m0; cbn in *. subst. f_equal. lia.
+        -- rewrite El2. rewrite Hmo2. rewrite Nat.sub_diag. cbn [firstn app].
+           rewrite skipn_app, Hlen2, Nat.sub_diag, skipn_all2 by lia. cbn. exact Hl2.
+      * rewrite <- Erest.
+        eapply tk_cons with (rest := firstn (m_off m - e0) rest ++ skipn (m_poff m + m_size m - e0) rest).
+        -- rewrite (Hany off _). f_equal. f_equal. destruct m0; cbn in *. subst. f_equal. lia.
+        -- (* something is left: at least one whole message *)
+           assert (Hne2 : pre' <> [] \/ post <> []).
+           { destruct pre'; [right|left; discriminate]. destruct post; [cbn in Erest; discriminate|discriminate]. }
+           pose proof (IH pre' m post eq_refl Hne2) as Hrec. apply tokens_length in Hrec. fold e0 in Hrec. lia.
+        -- assert (Hne2 : pre' <> [] \/ post <> []).
+           { destruct pre'; [right|left; discriminate]. destruct post; [cbn in Erest; discriminate|discriminate]. }
+           apply (IH pre' m post eq_refl Hne2).
+Qed.
+
+(* messages before the cut end before it, those after it start after it *)
+Lemma tokens_order : forall off l msgs, tokens off l msgs ->
+  forall pre m post, msgs = pre ++ m :: post ->
+  (forall x, In x pre -> m_poff x + m_size x <= m_off m) /\
+  (forall x, In x post -> m_poff m + m_size m <= m_off x).
+Proof.
+  induction 1 as [off l m0 rest Hp Hl|off l m0 rest ms Hp Hl Ht IH]; intros pre m post Hmsgs.
+  - destruct pre as [|x pre']; cbn in Hmsgs; inversion Hmsgs as [[Hx Hrest]].
+    + subst. split; intros x [].
+    + destruct pre'; discriminate.
+  - destruct pre as [|x pre']; cbn [app] in Hmsgs; inversion Hmsgs as [[Hx Hrest]].
+    + subst m0 post. split; [intros x []|]. intros x Hin.
+      destruct (tokens_bounds _ _ _ Ht x Hin) as (H1 & _). exact H1.
+    + subst x ms. destruct (IH pre' m post eq_refl) as [Hpre Hpost]. split; [|exact Hpost].
+      intros x [<-|Hin]; [|apply Hpre; exact Hin].
+      assert (Hinm : In m (pre' ++ m :: post)) by (apply in_or_app; right; left; reflexivity).
+      destruct (tokens_bounds _ _ _ Ht m Hinm) as (H1 & _). exact H1.
+Qed.
+
+Definition payload (data : list N) (m : seimsg) : list N := firstn (m_size m) (skipn (m_poff m) data).
+
+Lemma firstn_skipn_app_l {A} (a b : list A) n k : n + k <= List.length a ->
+  firstn k (skipn n (a ++ b)) = firstn k (skipn n a).
+Proof.
+  intros H. rewrite skipn_app. replace (n - List.length a) with 0 by lia. cbn [skipn].
+  rewrite firstn_app. rewrite skipn_length. replace (k - (List.length a - n)) with 0 by lia.
+  cbn [firstn]. apply app_nil_r.
+Qed.
+
+Lemma skipn_skipn' {A} (l : list A) a b : skipn a (skipn b l) = skipn (a + b) l.
+Proof.
+  revert l; induction b as [|b IH]; intros l; [rewrite Nat.add_0_r; reflexivity|].
+  destruct l as [|x l]; [rewrite !skipn_nil; reflexivity|].
+  rewrite Nat.add_succ_r. cbn [skipn]. apply IH.
+Qed.
+
+(* a message that ends before the cut keeps its payload bytes where they were *)
+Lemma payload_before_cut data a b x : m_poff x + m_size x <= a -> a <= List.length data ->
+  payload (firstn a data ++ skipn b data) x = payload data x.
+Proof.
+  intros H Ha. unfold payload. rewrite firstn_skipn_app_l by (rewrite firstn_length; lia).
+  rewrite <- (firstn_skipn a data) at 2.
+  rewrite firstn_skipn_app_l by (rewrite firstn_length; lia). reflexivity.
+Qed.
+
+(* a message that starts after the cut keeps its payload bytes, b - a positions earlier *)
+Lemma payload_after_cut data a b x : a <= b -> b <= m_off x -> m_off x < m_poff x -> a <= List.length data ->
+  payload (firstn a data ++ skipn b data) (shift (b - a) x) = payload data x.
+Proof.
+  intros Hab Hb Hx Ha. unfold payload, shift. cbn [m_poff m_size].
+  rewrite skipn_app, firstn_length. replace (Nat.min a (List.length data)) with a by lia.
+  rewrite (skipn_all2 (firstn a data)) by (rewrite firstn_length; lia). cbn [app].
+  rewrite skipn_skipn'. f_equal. f_equal. lia.
+Qed.
+
+Lemma is_hdr10plus_payload d1 m1 d2 m2 :
+  m_type m1 = m_type m2 -> m_size m1 = m_size m2 -> payload d1 m1 = payload d2 m2 ->
+  is_hdr10plus d1 m1 = is_hdr10plus d2 m2.
+Proof.
+  intros Ht Hs Hp. unfold is_hdr10plus. rewrite Ht, Hs.
+  destruct (7 <=? m_size m2)%nat eqn:E; [|rewrite !andb_false_r; reflexivity].
+  apply Nat.leb_le in E.
+  assert (H7 : forall d m, (7 <= m_size m)%nat -> firstn 7 (skipn (m_poff m) d) = firstn 7 (payload d m)).
+  { intros d m H. unfold payload. rewrite firstn_firstn. f_equal. lia. }
+  rewrite (H7 d1 m1) by lia. rewrite (H7 d2 m2) by lia. rewrite Hp. reflexivity.
+Qed.
+
+Lemma find_split {A} (f : A -> bool) l m : find f l = Some m ->
+  exists pre post, l = pre ++ m :: post /\ f m = true /\ forall x, In x pre -> f x = false.
+Proof.
+  induction l as [|a l IH]; [discriminate|]. cbn [find]. destruct (f a) eqn:E.
+  - intros H. inversion H; subst. exists [], l. repeat split; [exact E|intros x []].
+  - intros H. destruct (IH H) as (pre & post & -> & Hm & Hpre). exists (a :: pre), post.
+    repeat split; [exact Hm|]. intros x [<-|Hin]; [exact E|apply Hpre; exact Hin].
+Qed.
+
+Lemma cut_shape {A} (h0 h1 : A) body a b : 2 <= a -> 2 <= b ->
+  firstn a (h0 :: h1 :: body) ++ skipn b (h0 :: h1 :: body) =
+  h0 :: h1 :: (firstn (a - 2) body ++ skipn (b - 2) body).
+Proof.
+  intros Ha Hb. destruct a as [|[|a']]; [lia|lia|]. destruct b as [|[|b']]; [lia|lia|].
+  replace (S (S a') - 2) with a' by lia. replace (S (S b') - 2) with b' by lia. reflexivity.
+Qed.
+
+(* THE RE-PARSE THEOREM.  When remove_hdr10plus rewrites a NAL with several messages, the
+   rewritten NAL (un-escaped again, as any reader will) parses into exactly the other messages:
+   same count minus one, same order, same types and sizes, same payload bytes; and if the removed
+   message was the only HDR10+ one, none of the remaining messages is HDR10+. *)
+Theorem rewritten_nal_reparses nalbytes msgs m :
+  let data := unescape nalbytes in
+  (4 <= List.length data)%nat ->
+  parse_sei_rbsp data = Some msgs -> (1 < List.length msgs)%nat ->
+  find (is_hdr10plus data) msgs = Some m ->
+  exists pre post out,
+    msgs = pre ++ m :: post /\
+    remove_hdr10plus nalbytes = Ok (true, Some out) /\
+    let data' := unescape out in
+    let post' := map (shift (m_poff m + m_size m - m_off m)) post in
+    parse_sei_rbsp data' = Some (pre ++ post') /\
+    (forall x, In x pre -> payload data' x = payload data x) /\
+    (forall x, In x post -> payload data' (shift (m_poff m + m_size m - m_off m) x) = payload data x) /\
+    ((forall x, In x post -> is_hdr10plus data x = false) ->
+     forall y, In y (pre ++ post') -> is_hdr10plus data' y = false).
+Proof.
+  intros data Hlen Hp Hn Hf.
+  destruct (find_split _ _ _ Hf) as (pre & post & Hmsgs & Hm & Hpre).
+  exists pre, post, (escape (firstn (m_off m) data ++ skipn (m_poff m + m_size m) data)).
+  split; [exact Hmsgs|]. split; [apply rewrite_cuts_message with (msgs := msgs); assumption|].
+  cbn zeta.
+  (* the shape of the NAL *)
+  unfold parse_sei_rbsp in Hp. destruct data as [|h0 [|h1 body]] eqn:Ed; [discriminate|discriminate|].
+  destruct ((N.land (N.shiftr h0 1) 63 =? 39)%N || (N.land (N.shiftr h0 1) 63 =? 40)%N) eqn:Et; [|discriminate].
+  apply tokens_of_parse in Hp.
+  assert (Hh0 : h0 <> 0%N).
+  { intros ->. cbn in Et. discriminate. }
+  assert (Hne : pre <> [] \/ post <> []).
+  { subst msgs. rewrite app_length in Hn. cbn in Hn. destruct pre; [right|left; discriminate]. destruct post; [cbn in Hn; lia|discriminate]. }
+  assert (Hin : In m msgs) by (subst msgs; apply in_or_app; right; left; reflexivity).
+  destruct (tokens_bounds _ _ _ Hp m Hin) as (Hb1 & Hb2 & Hb3).
+  destruct (tokens_order _ _ _ Hp pre m post Hmsgs) as [Hopre Hopost].
+  pose proof (tokens_cut _ _ _ Hp pre m post Hmsgs Hne) as Hcut.
+  set (a := m_off m) in *. set (b := m_poff m + m_size m) in *.
+  assert (Hshape : firstn a (h0 :: h1 :: body) ++ skipn b (h0 :: h1 :: body) =
+                   h0 :: h1 :: (firstn (a - 2) body ++ skipn (b - 2) body)).
+  { apply cut_shape; unfold a, b; lia. }
+  rewrite unescape_escape by (rewrite Hshape; exact Hh0).
+  assert (Hab : a <= b) by (unfold a, b; lia).
+  assert (Hal : a <= List.length (h0 :: h1 :: body)) by (cbn [List.length]; lia).
+  repeat split.
+  - rewrite Hshape. unfold parse_sei_rbsp. rewrite Et.
+    apply parse_of_tokens; [exact Hcut|lia].
+  - intros x Hx. apply payload_before_cut; [apply Hopre; exact Hx|exact Hal].
+  - intros x Hx. assert (Hix : In x msgs) by (subst msgs; apply in_or_app; right; right; exact Hx).
+    destruct (tokens_bounds _ _ _ Hp x Hix) as (_ & Hx2 & _).
+    apply payload_after_cut; [exact Hab|apply Hopost; exact Hx|exact Hx2|exact Hal].
+  - intros Hpost y Hy. apply in_app_or in Hy. destruct Hy as [Hy|Hy].
+    + rewrite (is_hdr10plus_payload _ y (h0 :: h1 :: body) y eq_refl eq_refl); [apply Hpre; exact Hy|].
+      apply payload_before_cut; [apply Hopre; exact Hy|exact Hal].
+    + apply in_map_iff in Hy. destruct Hy as (x & <- & Hx).
+      assert (Hix : In x msgs) by (subst msgs; apply in_or_app; right; right; exact Hx).
+      destruct (tokens_bounds _ _ _ Hp x Hix) as (_ & Hx2 & _).
+      rewrite (is_hdr10plus_payload _ (shift (b - a) x) (h0 :: h1 :: body) x eq_refl eq_refl); [apply Hpost; exact Hx|].
+      apply payload_after_cut; [exact Hab|apply Hopost; exact Hx|exact Hx2|exact Hal].
+Qed.
